@@ -27,11 +27,14 @@ not_caught = [m['id'] for m in metas if m['caught_by'].startswith('NOT CAUGHT')]
 out = """### 10.6 Which checks catch which changes
 
 **Independently written changes** (`/verif/seeded/<id>/`: `patch.diff`, the author's demonstration,
-`MUTATION.md`, `meta.json`).  Each was written by a fresh sub-agent that saw only the property text
-(second round: plus one-line descriptions of earlier changes) and a scratch worktree; each was
-confirmed by `tools/intake.sh` in a fresh scratch copy (existing suite passes with it, the demo
-fails with it and passes without it) and evaluated by `tools/trymut.sh` (quick tier, 15-60 s,
-8 workers, scratch copy; `/repo` and `/verif/evidence` untouched).  %d changes, %d caught now;
+`MUTATION.md`, `meta.json`).  Each was written by a fresh sub-agent that saw only property text(s) and a
+scratch worktree - nothing from /verif (waves 1-8: one property each, later waves with one-line
+descriptions of the changes already tried and a per-property focus; waves 9-10: the repository's
+`fix:` commits, with the task to undo one of them for a sub-case only; wave 11: all properties and one
+code area, "make it look like an optimisation").  Each was confirmed by `tools/intake.sh` in a fresh
+scratch copy (existing suite passes with it, the demo fails with it and passes without it) and
+evaluated by `tools/trymut.sh` (quick tier, 15-90 s, 8 workers, scratch copy; `/repo` and
+`/verif/evidence` untouched); `tools/regress_seeded.sh` re-evaluates all of them after changes.  %d changes, %d caught now;
 %d of them only after the strengthening recorded in 10.2a (%s); not caught: %s.
 
 | id | property | change | caught by |
